@@ -27,22 +27,29 @@ def run(F, rep, tier):
     ca = pat.one(rep, pat.trait_calls(f, "policy::Policy", "call_action"), "call_action", f)
     if not ca:
         return
-    oe = f.outcome_edges(ca)
-    if "Ok" not in oe or "Err" not in oe:
-        rep.anchor_missing("action: call_action result not matched")
+    ok_e, err_e = pat.ok_edge(f, ca), pat.err_edge(f, ca)
+    if not ok_e or not err_e:
+        rep.anchor_missing("action: call_action result is not branched on")
         return
-    ok_e, err_e = oe["Ok"], oe["Err"]
     wr = pat.trait_calls(f, "storage::Storage", "write")
     ch = pat.trait_calls(f, "storage::Storage", "commit_heads")
     cm = pat.trait_calls(f, "policy::Sink", "commit")
     rb = pat.trait_calls(f, "policy::Sink", "rollback")
     bg = pat.trait_calls(f, "policy::Sink", "begin")
-    rep.floor("action: write/commit_heads/sink.commit/rollback sites", min(len(wr), len(ch), len(cm), len(rb)), 1)
+    rep.floor("action: write/commit_heads/sink.commit sites", min(len(wr), len(ch), len(cm)), 1)
     for c in wr + ch + cm:
         rep.check(pat.only_via_edge(f, ok_e, [c.bb]), "action|%s-only-on-ok" % c.name, "K2 guarded-by",
                   "%s is reachable only through the Ok edge of call_action" % c.name,
                   "ClientState::action: %s is reachable without call_action having succeeded" % c.name, c.site())
-    rep.check(pat.must_pass(f, err_e[1], [c.bb for c in rb]) and not pat.unreachable_from(f, err_e[1], wr + ch + cm), "action|err-edge", "K2 err-edge action",
+    # rollback on the Err outcome: in the function body, or in a closure given to inspect_err/map_err on the result
+    rb_closure = False
+    al = f.forward_aliases(ca.dest.local, through_calls=PASS_THROUGH)
+    for c in f.calls:
+        if c.is_("Result::inspect_err", "Result::map_err") and c.args and c.args[0].place is not None and c.args[0].place.local in al:
+            for cl in f.closures_in_args(c, F):
+                if pat.trait_calls(cl, "policy::Sink", "rollback"):
+                    rb_closure = True
+    rep.check((rb_closure or (bool(rb) and pat.must_pass(f, err_e[1], [c.bb for c in rb]))) and not pat.unreachable_from(f, err_e[1], wr + ch + cm), "action|err-edge", "K2 err-edge action",
               "on call_action's Err edge sink.rollback() runs and write/commit_heads/sink.commit are unreachable", site=ca.site())
     rep.check(bool(bg) and all(f.dominates(b.bb, ca.bb) for b in bg), "action|begin-before-call", "K1 must-pass-through",
               "sink.begin() precedes call_action", site=ca.site())
